@@ -76,6 +76,66 @@ def observe (d : DSt) (i : Nat) : DSt × String :=
 def nat! (s : String) : Nat := s.toNat?.getD 0
 def int! (s : String) : Int := s.toInt?.getD 0
 
+/-- Array.prototype.splice(start, del, …items) on a wrapper takes the generic path (builtin_array.go:494-533):
+    read the deleted elements, shift the tail with `a[to] = a[from]` (a value copy through the element wrapper),
+    delete what is left over, store the items, set the length.  Expressed with the primitive steps. -/
+def spliceSteps (len start del : Nat) (items : List Int) : List (String × Nat × Nat × Int) :=
+  let s := min start len
+  let d := min del (len - s)
+  let k := items.length
+  let reads := (List.range d).map (fun t => ("get", s + t, 0, (0 : Int)))
+  let moves :=
+    if k < d then
+      ((List.range (len - d - s)).map (fun t => ("mv", s + t + k, s + t + d, (0 : Int)))) ++
+      ((List.range (d - k)).map (fun t => ("del", len - 1 - t, 0, (0 : Int))))
+    else if d < k then
+      (List.range (len - d - s)).map (fun t => ("mv", len - d - t + k - 1, len - t - 1, (0 : Int)))
+    else []
+  let sets := (List.range k).map (fun i => ("set", s + i, 0, items.getD i 0))
+  reads ++ moves ++ sets ++ [("len", len - d + k, 0, (0 : Int))]
+
+def mechPrim (s : St) (p : String × Nat × Nat × Int) : St :=
+  match p with
+  | ("get", i, _, _) => s.step (.get i)
+  | ("del", i, _, _) => s.step (.del i)
+  | ("set", i, _, x) => s.step (.set i x)
+  | ("len", n, _, _) => s.step (.setLen n)
+  | ("mv", to, frm, _) =>
+      if s.len ≤ frm then s.step (.del to) else
+      let s1 := s.step (.get frm)
+      let v := match s1.cacheGet frm with
+        | some w => s1.readW w
+        | none => s1.slot frm
+      s1.step (.set to v)
+  | ("rv", lo, up, _) =>
+      -- arrayproto_reverse_generic_step (builtin_array.go:963): both values are read (as wrappers) first, then stored
+      let s1 := (s.step (.get lo)).step (.get up)
+      match s1.cacheGet lo, s1.cacheGet up with
+      | some wl, some wu =>
+        let s2 := s1.step (.set lo (s1.readW wu))
+        s2.step (.set up (s2.readW wl))
+      | _, _ => s1
+  | _ => s
+
+def specPrim (s : Sp) (p : String × Nat × Nat × Int) : Sp :=
+  match p with
+  | ("get", i, _, _) => s.step (.get i)
+  | ("del", i, _, _) => s.step (.del i)
+  | ("set", i, _, x) => s.step (.set i x)
+  | ("len", n, _, _) => s.step (.setLen n)
+  | ("mv", to, frm, _) =>
+      if s.len ≤ frm then s.step (.del to) else
+      let s1 := s.step (.get frm)
+      s1.step (.set to (s1.val frm))
+  | ("rv", lo, up, _) =>
+      let s1 := (s.step (.get lo)).step (.get up)
+      match s1.findAtt lo, s1.findAtt up with
+      | some wl, some wu =>
+        let s2 := s1.step (.set lo (s1.readH wu))
+        s2.step (.set up (s2.readH wl))
+      | _, _ => s1
+  | _ => s
+
 def runOp (d : DSt) (tok : String) : DSt × String :=
   if d.s.panic then (d, "") else
   match tok.splitOn ":" with
@@ -95,6 +155,26 @@ def runOp (d : DSt) (tok : String) : DSt × String :=
   | ["ra", _] => ({ d with s := (List.range d.s.len).foldl (fun st i => st.step (.get i)) d.s }, "")
   | ["nop", _] => (d, "")
   | ["sort"] => ({ d with s := sortSwaps d.s }, "")
+  | ["def", i, x] => ({ d with s := d.s.step (.set (nat! i) (int! x)) }, "")
+  | ["splice", st, dl, k] =>
+      if d.s.fixed then (d, "") else
+      let items := (List.range (nat! k)).map (fun i => (900 : Int) + Int.ofNat i)
+      ({ d with s := (spliceSteps d.s.len (nat! st) (nat! dl) items).foldl mechPrim d.s }, "")
+  | ["reverse"] =>
+      let n := d.s.len
+      ({ d with s := ((List.range (n / 2)).map (fun lo => ("rv", lo, n - 1 - lo, (0 : Int)))).foldl mechPrim d.s }, "")
+  | ["shift"] =>
+      let n := d.s.len
+      if n = 0 then (d, "g=- ") else
+      let steps := ((List.range (n - 1)).map (fun i => ("mv", i, i + 1, (0 : Int)))) ++ [("del", n - 1, 0, 0), ("len", n - 1, 0, 0)]
+      if d.s.fixed then ({ d with s := steps.foldl mechPrim (d.s.step (.get 0)) }, "g=- ") else
+      let (d1, pre) := observe d 0
+      ({ d1 with s := steps.foldl mechPrim d1.s }, pre)
+  | ["unshift", x] =>
+      let n := d.s.len
+      if d.s.fixed then ({ d with s := if n = 0 then d.s else d.s.step (.get (n - 1)) }, "") else
+      let steps := ((List.range n).map (fun t => ("mv", n - t, n - 1 - t, (0 : Int)))) ++ [("set", 0, 0, int! x), ("len", n + 1, 0, 0)]
+      ({ d with s := steps.foldl mechPrim d.s }, "")
   | ["push", x] =>
       if d.s.fixed then ({ d with s := d.s.step (.set d.s.len (int! x)) }, "")
       else ({ d with s := d.s.step (.set d.s.len (int! x)) }, "")
@@ -176,6 +256,26 @@ def runOpSp (d : DSp) (tok : String) : DSp × String :=
   | ["ra", _] => (d, "")
   | ["nop", _] => (d, "")
   | ["sort"] => ({ d with s := sortSp d.s }, "")
+  | ["def", i, x] => ({ d with s := d.s.step (.set (nat! i) (int! x)) }, "")
+  | ["splice", st, dl, k] =>
+      if d.s.fixed then (d, "") else
+      let items := (List.range (nat! k)).map (fun i => (900 : Int) + Int.ofNat i)
+      ({ d with s := (spliceSteps d.s.len (nat! st) (nat! dl) items).foldl specPrim d.s }, "")
+  | ["reverse"] =>
+      let n := d.s.len
+      ({ d with s := ((List.range (n / 2)).map (fun lo => ("rv", lo, n - 1 - lo, (0 : Int)))).foldl specPrim d.s }, "")
+  | ["shift"] =>
+      let n := d.s.len
+      if n = 0 then (d, "g=- ") else
+      let steps := ((List.range (n - 1)).map (fun i => ("mv", i, i + 1, (0 : Int)))) ++ [("del", n - 1, 0, 0), ("len", n - 1, 0, 0)]
+      if d.s.fixed then ({ d with s := steps.foldl specPrim (d.s.step (.get 0)) }, "g=- ") else
+      let (d1, pre) := observeSp d 0
+      ({ d1 with s := steps.foldl specPrim d1.s }, pre)
+  | ["unshift", x] =>
+      let n := d.s.len
+      if d.s.fixed then ({ d with s := if n = 0 then d.s else d.s.step (.get (n - 1)) }, "") else
+      let steps := ((List.range n).map (fun t => ("mv", n - t, n - 1 - t, (0 : Int)))) ++ [("set", 0, 0, int! x), ("len", n + 1, 0, 0)]
+      ({ d with s := steps.foldl specPrim d.s }, "")
   | ["push", x] => ({ d with s := d.s.step (.set d.s.len (int! x)) }, "")
   | ["pop"] =>
       if d.s.len = 0 then (d, "g=- ") else
@@ -466,12 +566,20 @@ def parseJArg (s : String) : JArg :=
   else if s.startsWith "f" then .num (.flt (.frac ((parseHex? rest).getD 0)))
   else .undef
 
+def pkindOf (s : String) : Option PKind :=
+  if s = "bool" then some .bool else if s = "float64" then some .f64 else (kindOf s).map .int
+
+def showGoArg : GoArg → String
+  | .int v => showInt v
+  | .bool b => if b then "true" else "false"
+  | .f64 f => showFlt f
+
 def runA (ws : List String) : String :=
   match ws with
   | va :: ks :: "|" :: args =>
-    let kinds := (ks.splitOn ",").filterMap kindOf
+    let kinds := (ks.splitOn ",").filterMap pkindOf
     let variadic := b! va
-    let vals := (gatewayCall kinds variadic (args.map parseJArg)).map showInt
+    let vals := (gatewayCallP kinds variadic (args.map parseJArg)).map showGoArg
     let nfixed := if variadic then kinds.length - 1 else kinds.length
     "fixed=[" ++ ",".intercalate (vals.take nfixed) ++ "] tail=[" ++ ",".intercalate (vals.drop nfixed) ++ "]"
   | _ => "BADLINE"
